@@ -1,27 +1,9 @@
 #!/bin/sh
-# MANIFEST.setup_cmd: build the whole framework offline from files on disk.
+# MANIFEST.setup_cmd: build, offline and from files on disk only, everything the claimed checks need
+# (full .vo build of the Coq development they depend on, extracted OCaml model drivers, Rust harness bins
+# against /repo's working tree with the verif hooks on).
 set -e
 cd "$(dirname "$0")"
 export CARGO_NET_OFFLINE=true
 mkdir -p .cache ocaml/gen ocaml/bin evidence replays
-# 1. Coq development: full .vo build (no -vos/-vok)
-python3 - <<'PY'
-import sys; sys.path.insert(0, "lib")
-import vlib
-e = vlib.coq_makefile()
-if e: print(e); sys.exit(1)
-PY
-(cd coq && timeout 7000 make -j16 > ../.cache/coq-build.log 2>&1) || { tail -40 .cache/coq-build.log; exit 1; }
-# 2. extracted models + drivers
-./ocaml/build.sh
-# 3. Rust harness against /repo's working tree (hooks on)
-(cd harness && timeout 7000 cargo build --offline --bins --target-dir ../.cache/target > ../.cache/cargo-build.log 2>&1) || { tail -40 .cache/cargo-build.log; exit 1; }
-if [ -f harness/.features ]; then
-  for f in $(cat harness/.features); do
-    bins=$(grep "^$f " harness/.feature-bins | cut -d' ' -f2-)
-    for b in $bins; do
-      (cd harness && timeout 7000 cargo build --offline --bin $b --features $f --target-dir ../.cache/target-$f >> ../.cache/cargo-build.log 2>&1) || { tail -40 .cache/cargo-build.log; exit 1; }
-    done
-  done
-fi
-echo setup ok
+exec ./check --setup
